@@ -41,6 +41,14 @@ Fixpoint const_values (items : list expr) : option (list value) :=
   end.
 
 (* ast.rs::eval_compare (and the comparison arms of eval_binop, which are identical) *)
+(* ast.rs::Map::as_const: every key and every value must be an Expr::Const node *)
+Fixpoint const_pairs (pairs : list (expr * expr)) : option (list (value * value)) :=
+  match pairs with
+  | [] => Some []
+  | (EConst k, EConst v) :: r => omap (cons (lit_value k, lit_value v)) (const_pairs r)
+  | _ :: _ => None
+  end.
+
 Definition eval_compare (op : cmpop) (left right : value) : option value :=
   match op with
   | CEq => Some (VBool (value_eqb left right))
@@ -79,6 +87,7 @@ Fixpoint as_const_gen (e : expr) {struct e} : option value :=
   match e with
   | EConst l => Some (lit_value l)
   | EList items => omap VList (const_values items)
+  | EMap pairs => omap (fun kvs => VMap (map_of_pairs kvs)) (const_pairs pairs)      (* rv.insert(key, value) in source order *)
   | ENot a => omap (fun v => VBool (negb (truthy v))) (as_const_gen a)
   | ENeg a => obind (as_const_gen a) (fun v => ok_of (do_neg v))
   | EBin op a b =>
@@ -154,6 +163,7 @@ Definition descend (f : expr -> expr) (e : expr) : expr :=
   match e with
   | EConst _ | EVar _ => e
   | EList items => EList (map f items)
+  | EMap pairs => EMap (map (fun p => (f (fst p), f (snd p))) pairs)
   | ENeg a => ENeg (f a)
   | ENot a => ENot (f a)
   | EBin op a b => EBin op (f a) (f b)
